@@ -47,7 +47,7 @@ m("c02-delcgn-el-factor", ["C02"], "src/balance.rs",
   "        del.cgn_an * fP_grid_A\n",
   "        del.cgn_an * wfactors.find(Carrier::ELECTRICIDAD, Source::RED, Dest::SUMINISTRO, Step::A)?\n",
   "cogeneration input weighted with the electricity grid factor")
-m("c02-rer-from-a", ["C02", "C13"], "src/balance.rs",
+m("c02-rer-from-a", ["C02"], "src/balance.rs",
   "    let rer = balance.we.b.rer();",
   "    let rer = balance.we.a.rer();",
   "RER computed from step A")
@@ -102,7 +102,7 @@ m("c05-abs-instead-of-positive-part", ["C05"], "src/components.rs",
 m("c05-no-termosolar-completion", ["C05"], "src/components.rs",
   "        self.complete_produced_for_onsite_generated_use(Carrier::TERMOSOLAR);\n", "",
   "only ambient energy is completed")
-m("c05-drop-comment-used", ["C05", "C18"], "src/types/energy/used.rs",
+m("c05-drop-comment-used", ["C05"], "src/types/energy/used.rs",
   "        let comment = items.get(1).unwrap_or(&\"\").to_string();\n        let items: Vec<&str> = items[0].split(',').map(str::trim).collect();\n\n        // Minimal possible length (carrier + type + subtype + 1 value)",
   "        let comment = String::new();\n        let items: Vec<&str> = items[0].split(',').map(str::trim).collect();\n\n        // Minimal possible length (carrier + type + subtype + 1 value)",
   "comments of consumption lines are dropped")
